@@ -826,5 +826,6 @@ func (r *vrun) finish(tag string) {
 	r.c.Count(fmt.Sprintf("buckets_%d", r.cfg.Buckets))
 	r.c.Count(fmt.Sprintf("file_size_%d", r.cfg.FileSize))
 	term := fmt.Sprintf("Cs %d %d %d %d %d %s", first, r.now, r.cfg.Threshold, r.cfg.FileSize, r.cfg.Buckets, corr.List(r.ops))
-	r.c.Emit(corr.Case{Coq: term, Nontrivial: nontriv, Desc: map[string]any{"tag": tag, "cfg": r.cfg, "prog": r.steps, "ops": r.desc}})
+	r.c.Emit(corr.Case{Coq: term, Nontrivial: nontriv, Desc: map[string]any{"tag": tag, "cfg": r.cfg, "prog": r.steps}})
+	_ = r.desc // the per-op trace is kept out of the case description (size); --replay of the program regenerates it
 }
